@@ -53,7 +53,7 @@ TIEQ_MODULE = T + "TiesQ"   # query-side ties (Node, Edge, From); theorems live 
 TIEQ_THEOREMS = ["tie_Node", "tie_Edge", "forMapAux_setIdx", "tie_From", "tie_From_mem"]
 TIER_MODULE = T + "TiesR"   # phase 4: the body of ShortestRoute (adapter from the regenerated From/Weight/costHeuristic, totals loop) = Model.shortestRoute
 TIER_THEOREMS = ["ordOf_mem", "cand_mem", "neighborIds_nodup", "cand_eq_keys", "tie_From_perm", "tie_adapter", "tie_totals", "tie_aStar", "tie_ShortestRoute", "tie_ShortestRoute_ok",
-                 "tie_ShortestRoute_fault", "C19_regenerated"]
+                 "tie_ShortestRoute_fault", "C19_regenerated", "C19_regenerated_unreachable"]
 TIE_THEOREMS = ["tie_NewNetwork", "tie_Has", "tie_newNodeID", "tie_newNode", "tie_addNode", "tie_ensureNode", "tie_AddLink",
                 "tie_Weight", "tie_costHeuristic", "tie_buildFrom", "tie_build", "mapSet_keys_nodup"]
 
